@@ -1,6 +1,6 @@
 // C12 - savefiles restore the saved state and contain only differences from defaults.
 //
-// Space: every state of three macro-built applications (apps/save_apps.h) reachable by bounded sequences of
+// Space: every state of five macro-built applications (apps/save_apps.h) reachable by bounded sequences of
 // parameter messages from the default-constructed instance (explicit-state BFS over real objects, see
 // apps/save_common.h). Per state: save_to_file -> text parsed by the harness -> minimality oracle computed from
 // the hand-written application description (never from get_default_value) -> load_from_file into a fresh
